@@ -473,8 +473,10 @@ class Intervals:
                     return False
                 if r[0] != root:
                     continue
-                m = min(n, len(r[1]))
-                if tuple(r[1][:m]) == tuple(path[:m]):
+                # only a write to the place that HOLDS the pointer (or to something containing it) changes the pointer;
+                # a write through it (a longer path) changes the pointee
+                wl = len(r[1])
+                if wl <= n and tuple(r[1]) == tuple(path[:wl]):
                     return False
         return True
 
@@ -1470,7 +1472,21 @@ class Intervals:
             if short == "next" and "Enumerate" in c and "slice::iter::Iter" in (d.get("cargs") or "") and dty.startswith("core::option::Option<(usize,"):
                 payloads.append(((("d", 1), ("f", 0), ("f", 0)), (0, ISIZE_MAX - 1), (0, (1 << 64) - 1), []))
         new_vf = self._variant_facts(st, c, short, args_ops, atys, args, arg_terms, self.body.locals[l][0])
+        carry = self._payload_carry(st, c, short, args_ops, atys, self.body.locals[l][0])
         st.kill(l)
+        if carry is not None:
+            ts, dv = carry
+            td = ("P", l, (("d", dv), ("f", 0)))
+            self.term_tr[td] = self.term_tr[ts]
+            if ts in st.iv:
+                st.iv[td] = st.iv[ts]
+            for (a, o, b2) in list(st.rel):
+                if a == ts:
+                    st.rel.add((td, o, b2))
+                if b2 == ts:
+                    st.rel.add((a, o, td))
+            st.rel.add((td, "<=", ts))
+            st.rel.add((ts, "<=", td))
         if new_vf is not None:
             st.vf[l] = new_vf
         if new is not None and tr is not None:
@@ -1554,6 +1570,31 @@ class Intervals:
         if ra is not None:
             ok = self._narrow_term(st, b, (ra[0] + d, INF)) and ok
         return ok
+
+    def _payload_carry(self, st, c, short, args_ops, atys, dty):
+        """`opt.ok_or(e)`, `res?` (Try::branch), `map_err`, `ok()`: the integer payload of the success variant is the same
+        value in the result -> (source payload term, success variant of the result)"""
+        if not args_ops or not atys:
+            return None
+        src = op_local(args_ops[0])
+        if src is None:
+            return None
+
+        def succ(ty):
+            if ty.startswith("core::option::Option<"):
+                return 1
+            if ty.startswith("core::result::Result<") or ty.startswith("core::ops::control_flow::ControlFlow<"):
+                return 0
+            return None
+        sv, dv = succ(atys[0]), succ(dty)
+        if sv is None or dv is None:
+            return None
+        if not (c.endswith("as core::ops::try_trait::Try>::branch") or short in ("ok_or", "ok_or_else", "map_err", "ok")):
+            return None
+        ts = ("P", src, (("d", sv), ("f", 0)))
+        if ts not in self.term_tr:
+            return None
+        return ts, dv
 
     def _apply_variant_facts(self, st, v):
         for (a, o, b) in v[1]:
